@@ -53,7 +53,8 @@ def DaeIc(dae: nDAE, y0: np.ndarray, t0, rtol):
             for probe in range(3):
                 ynew[AlgVar] = y[AlgVar] + lam * dY
                 Fnew = F(ynew)
-                if norm(Fnew[AlgEqn]) <= 1e-5 * rtol:
+                # never looser than the fixed 1e-6 used for starts that count as consistent
+                if norm(Fnew[AlgEqn]) <= min(1e-5 * rtol, 1e-6):
                     return ynew
                 dYnew = solve(J(ynew)[np.ix_(AlgEqn, AlgVar)], Fnew[AlgEqn])
                 resnew = norm(dYnew[nz_idx]/y[AlgVar][nz_idx])
